@@ -376,6 +376,22 @@ def check_object(name, obj, rep, stats, narrow_reqs, narrow_meta):
             rep.violation('C07:fabricated-attributes', 'sigtools.signature(%s) -> %s where inspect.signature -> %s'
                           % (name, got[1], base[1]), {'kind': 'object', 'name': name, 'label': 'fabricated'})
         return
+    try:
+        hash(obj)
+        unhashable = False
+    except TypeError:
+        unhashable = True
+    except Exception:  # noqa: BLE001
+        unhashable = False
+    if unhashable:
+        # known finding C07:unhashable-callable (delimited class): provenance maps are keyed by the callable
+        stats['unhashable_objects'] += 1
+        base = outcome(inspect.signature, obj)
+        got = outcome(PS.signature, obj)
+        if base[0] == 'ok' and got[0] != 'ok':
+            rep.violation('C07:unhashable-callable', 'signatures.signature(%s) raised %s where inspect.signature succeeds (the callable is unhashable)'
+                          % (name, got[1]), {'kind': 'object', 'name': name, 'label': 'unhashable'})
+        return
     base = outcome(inspect.signature, obj)
     results = {
         'sigtools.signature': outcome(sigtools.signature, obj),
@@ -632,6 +648,13 @@ def replay(ctx, data):
 
 
 def replay_known(ctx, k):
+    if k.get('key') == 'C07:unhashable-callable':
+        class _U(object):
+            __hash__ = None
+
+            def __call__(self, a):
+                return a
+        return outcome(PS.signature, _U())[0] == 'err'
     if k.get('key') == 'C07:fabricated-attributes':
         import unittest.mock as m
         return outcome(sigtools.signature, m.Mock())[0] == 'err'
